@@ -87,7 +87,11 @@ ExplainOK(g) ==
 Explain(g) ==
   /\ \/ ExplainOK(g)
      \/ /\ Debug
-        /\ PrintT(<<"MISMATCH", ToJson([l |-> l, pos |-> pos, cnt |-> cnt, out |-> out'])>>)
+        /\ PrintT(<<"MISMATCH", ToJson([l |-> l, pos |-> pos, cnt |-> cnt, out |-> out',
+                     bad |-> {r \in Slot : r \notin g /\ r \notin sdone /\
+                               ~(LET grp == GroupFor(out', r) IN
+                                 /\ cnt[r] + Len(grp) <= Len(Ev.obs[r])
+                                 /\ GroupMatch(SubSeq(Ev.obs[r], cnt[r] + 1, cnt[r] + Len(grp)), grp))}])>>)
         /\ FALSE
   /\ cnt' = [r \in Slot |-> IF r \in g \/ r \in sdone THEN cnt[r] ELSE cnt[r] + Len(GroupFor(out', r))]
   /\ carry' = [r \in Slot |-> IF r \in sdone /\ r \notin g /\ GroupFor(out', r) # <<>>
